@@ -64,13 +64,11 @@ Lemma c02_move_readable_l : forall ax e dir c sm s r sl o i,
   report_ok s r -> wf s -> victims_regular s (run_cmds ax (OpMove dir) c sm s r) ->
   let cs := map (fcmd_of e) (run_cmds ax (OpMove dir) c sm s r) in
   forall cs', Permutation cs cs' ->
-  (forall x, In x (run_cmds ax (OpMove dir) c sm s r) ->
-     forall y, names s (norm (move_target dir (mpath (cmd_victim x)))) <> Some (NLink y)) ->
   let out := run_script sl o i cs' s in
   forall fc res, In (fc, res) (combine cs' (sresults out)) -> res = IOk ->
   forall i0 d0, names s (victim fc) = Some (NFile i0) -> inodes s i0 = Some d0 ->
   exists j dj, names (sfs out) (move_target_of fc) = Some (NFile j) /\ inodes (sfs out) j = Some dj /\ ibytes dj = ibytes d0.
-Proof. intros ax e dir c sm s r sl o i Hro Hwf Hreg cs cs' HP Hnl. exact (c02_move_readable ax e dir c sm s r Hro Hwf Hreg sl o i cs' HP Hnl). Qed.
+Proof. intros ax e dir c sm s r sl o i Hro Hwf Hreg cs cs' HP. exact (c02_move_readable ax e dir c sm s r Hro Hwf Hreg sl o i cs' HP). Qed.
 
 Lemma c02_k2_witness_l : exists ax e op c sm s r,
   (forall sl, run_ok ax e sl op c sm s r) /\
